@@ -1,8 +1,69 @@
-Require Import Pk.CacheFile.
+(* C15 -- the converter cache behaves like a map from stream to latest output.
+   Model: Pk.CacheFile (cachefile.go with the three C15 repairs, fx_all).  Only statements here;
+   the proofs are in Pk.CacheFileProofs / CacheFileRecord / CacheFileCts / CacheFileRoundtrip. *)
+From Coq Require Import NArith ZArith List Permutation.
+Require Import Pk.CacheFile Pk.CacheFileProofs Pk.CacheFileRecord Pk.CacheFileCts Pk.CacheFileRoundtrip.
+Import ListNotations.
 Open Scope N_scope.
 
-(* smoke test of the model on the record of TestCachefile-like input; the theorems follow *)
-Example C15_model_smoke :
-  decode_record 0%Z (encode_record 0%Z [mkChunk false [49] 0%Z []; mkChunk true [51] 1000000000%Z [102;111;111]])
-  = Some ([mkChunk false [49] 0%Z []; mkChunk true [51] 1000000000%Z [102;111;111]], 1, 1).
-Proof. vm_compute. reflexivity. Qed.
+(* ---------------- 1. codec round trips ---------------- *)
+Theorem C15_varint_roundtrip : forall n r, n < W64 -> read_varint (write_varint n ++ r) = Some (n, r).
+Proof. exact varint_roundtrip. Qed.
+
+Theorem C15_varbytes_roundtrip : forall data r, Forall (fun b => b < 256) data ->
+  read_varbytes (write_varbytes data ++ r) = Some (data, r).
+Proof. exact varbytes_roundtrip. Qed.
+
+Theorem C15_string_roundtrip : forall s r, len s < W64 -> read_string (write_string s ++ r) = Some (s, r).
+Proof. exact string_roundtrip. Qed.
+
+(* ---------------- 2. one record ---------------- *)
+(* chunk_ok c  : content not empty, content and content-type lengths < 2^64
+   times_ok t0 : every step first-packet -> chunk 1 -> chunk 2 ... is less than 2^63 ns (Time.Sub exact)
+   record_bytes t0 cs m : the bytes setData writes when Go iterates its content-type map in order m
+   trunc_us t0 cs : same chunks, chunk i gets time  t0 + 1000 * sum_{j<=i} quot (T_j - T_{j-1}) 1000 *)
+
+(* self-delimiting, for every iteration order of the content-type map *)
+Theorem C15_record_self_delimiting : forall t0 cs m rest,
+  Forall chunk_ok cs -> times_ok t0 cs -> Permutation m (collect_cts 0 cs []) ->
+  skip_stream (record_bytes t0 cs m ++ rest) = Some rest.
+Proof. exact skip_record_bytes. Qed.
+
+(* Data(): directions, bytes, content types exactly; times as stated by trunc_us *)
+Theorem C15_record_roundtrip_any_ct_order : forall t0 cs m rest,
+  Forall chunk_ok cs -> times_ok t0 cs -> Permutation m (collect_cts 0 cs []) ->
+  decode_record t0 (record_bytes t0 cs m ++ rest)
+  = Some (trunc_us t0 cs, len (enc_data false cs), len (enc_data true cs)).
+Proof. exact decode_record_bytes. Qed.
+
+(* DataForSearch(): both concatenations and the running totals *)
+Theorem C15_record_search_roundtrip : forall t0 cs m rest,
+  Forall chunk_ok cs ->
+  decode_search (record_bytes t0 cs m ++ rest)
+  = Some (enc_data false cs, enc_data true cs, (0, 0) :: totals 0 0 cs,
+          len (enc_data false cs), len (enc_data true cs)).
+Proof. exact decode_search_bytes. Qed.
+
+(* the exact microsecond statement: microsecond-granular input is returned unchanged ... *)
+Theorem C15_times_exact_for_microsecond_input : forall t0 cs,
+  (t0 mod 1000 = 0)%Z -> Forall (fun c => (c_time c mod 1000 = 0)%Z) cs -> trunc_us t0 cs = cs.
+Proof. exact trunc_us_exact. Qed.
+
+(* ... and nanosecond input (non-decreasing times) loses less than one microsecond per chunk, never gains *)
+Theorem C15_times_drift_for_nanosecond_input : forall t0 cs,
+  nondecreasing t0 cs ->
+  Forall2 (fun c o => same_but_time c o /\ (0 <= c_time c - c_time o <= 999 * Z.of_nat (length cs))%Z)
+          cs (trunc_us t0 cs).
+Proof. exact trunc_us_drift. Qed.
+
+(* non-vacuity of the hypotheses: the record of TestCachefile's shape *)
+Example C15_record_hypotheses_satisfiable :
+  let cs := [mkChunk false [49] 1000%Z []; mkChunk false [50] 1000%Z []; mkChunk true [51] 1000001000%Z [102; 111; 111]] in
+  Forall chunk_ok cs /\ times_ok 1000%Z cs /\
+  decode_record 1000%Z (encode_record 1000%Z cs) = Some (cs, 2, 1).
+Proof.
+  cbv zeta. split; [|split].
+  - repeat constructor; cbn; try congruence; try (unfold W64; reflexivity).
+  - cbn. unfold Z63. repeat split; reflexivity.
+  - vm_compute. reflexivity.
+Qed.
